@@ -40,7 +40,18 @@ def c01(ctx, v):
         S.r_sift(ctx, v, PQ)
     if B:
         B.r_units(ctx, v, only=lambda f: f.key.startswith("priority_queue::"))
+    representation(ctx, v)
     ctx.floor("R-RESTORE[PriorityQueue]", sum(1 for o in ctx.obs if o.rule == "R-RESTORE" and o.config == v.config), 15)
+
+
+def representation(ctx, v):
+    """the heap order is a statement about heap[] / qp[] / map: the extreme element is found only if the three tables are
+    mutually consistent, so the structural conditions of that consistency are necessary conditions of C01 / C02 too"""
+    T.r_tables(ctx, v, want=("R-GROW",))
+    T.r_growval(ctx, v)
+    T.r_repair(ctx, v)
+    if S:
+        S.r_prim(ctx, v)
 
 
 def c02(ctx, v):
@@ -52,6 +63,7 @@ def c02(ctx, v):
         S.r_sift(ctx, v, DPQ)
     if B:
         B.r_units(ctx, v, only=lambda f: f.key.startswith("double_priority_queue::"))
+    representation(ctx, v)
     ctx.floor("R-RESTORE[DoublePriorityQueue]", sum(1 for o in ctx.obs if o.rule == "R-RESTORE" and o.config == v.config), 15)
 
 
@@ -243,24 +255,32 @@ PROPS = {
             "feasible normal path by a restorer sufficient for its kind and addressed to the same position (value provenance), vacuity guards "
             "recognised exactly (pos >= len, len <= 1); R-UPBOTH on up_heapify; R-EXTREME: peek/peek_mut/pop/pop_if address the root and "
             "yield None on the empty queue; R-EXPOSE: the frozen inventory of APIs handing out &mut P; R-SIFT: role-based comparison facts of "
-            "heapify/bubble_up/heap_build against the max-heap specification; R-UNITS on the sift functions.",
+            "heapify/bubble_up/heap_build against the reviewed max-heap skeleton (read from the variable-normalised MIR, new private "
+            "helpers inlined); R-UNITS on the sift functions; representation prerequisites R-GROW, R-GROWVAL (the number pushed onto heap/qp is "
+            "the new entry's own), R-REPAIR, R-PRIM (reviewed skeletons of Store::swap / swap_remove / remove).",
             "trusted": [TRUST_RUSTC, "indexmap contracts"], "assumptions": ["restorers are correct given R-SIFT's structural facts"]},
     "C02": {"rules": [c02], "explanation":
             "As C01 for DoublePriorityQueue: R-RESTORE (pop_min/pop_max -> heapify(find_*), pop_max_if -> up_heapify), R-UPBOTH (both ends of the "
             "move re-sifted), R-EXTREME for the min and the max accessor groups incl. the arms of find_min/find_max, R-EXPOSE, R-SIFT incl. "
-            "R-DUAL (heapify_min/max and bubble_up_min/max are polarity duals; candidate set is children+grandchildren).",
+            "R-DUAL (heapify_min/max and bubble_up_min/max are polarity duals; candidate set is children+grandchildren); the same "
+            "representation prerequisites as C01 (R-GROW, R-GROWVAL, R-REPAIR, R-PRIM).",
             "trusted": [TRUST_RUSTC, "indexmap contracts"], "assumptions": []},
     "C03": {"rules": [c03], "explanation":
             "R-GROW (table-consistency automaton over every feasible path of every table-writing body: map, heap, qp and size change by the same "
-            "amount; growth only for an absent key), R-REPAIR (index repairs of the shrink primitives are reached on every path), R-ABSENT "
-            "(absent-item paths are effect-free), R-KEYMUT k3 (sifts move indices, never entries), R-STRAT (which of item/priority a bulk path "
-            "writes for a present key).",
+            "amount; growth only for an absent key), R-GROWVAL (heap/qp receive the new entry's own number: a length read before it grows, "
+            "nothing but the group's own growth in between, or a counter paired with the pushes), R-REPAIR (index repairs of the shrink "
+            "primitives are reached on every path), R-PRIM (Store::swap / swap_remove / remove against their reviewed guarded-effect skeletons), "
+            "R-ABSENT (absent-item paths are effect-free), R-ASSIGN (the priority stored is the offered one), R-READERS (len/is_empty/get*/iter/"
+            "into_iter/into_vec read the map / size and the queue wrappers return what the Store functions return), R-RETURNS (provenance of every "
+            "returned old priority / removed pair), R-ONCE/R-IFF for the pop_if family, R-KEYMUT k3 (sifts move indices, never entries), "
+            "R-STRAT (which of item/priority a bulk path writes for a present key).",
             "trusted": [TRUST_RUSTC, "indexmap: swap_remove moves only the last entry"], "assumptions": []},
     "C04": {"rules": [c04], "explanation":
             "R-BOUNDS: every get_unchecked(_mut), unsafe call, unwrap and overflow-checked arithmetic site has a recognised justification relative "
             "to the representation invariant (dominating guard, value read from the inverse table, index returned by indexmap, parameter -> "
-            "precondition discharged at every call site); R-UNITS (heap subscripts are Positions, qp/map-slot subscripts are Indexes); R-GROW, "
-            "R-REPAIR, R-RESET (structural conditions for the invariant); R-WRITERS (who writes the tables); R-UNSAFEKINDS.",
+            "precondition discharged at every call site; a guard on the length is worth only what the removals between the read of the length "
+            "and the use leave of it); R-UNITS (heap subscripts are Positions, qp/map-slot subscripts are Indexes); R-GROW, R-GROWVAL, "
+            "R-REPAIR, R-PRIM, R-RESET (structural conditions for the invariant); R-WRITERS (who writes the tables); R-UNSAFEKINDS; R-CURSOR.",
             "trusted": [TRUST_RUSTC], "assumptions": ["container lengths <= isize::MAX (no overflow of len+1, 2*i+2)"]},
     "C05": {"rules": [c05], "explanation":
             "R-COST: comparison-cost class of every public entry point from the reachability of priority-comparison sites (parametricity: "
@@ -276,7 +296,8 @@ PROPS = {
             "R-HINT (taint: the upper bound of Iterator::size_hint reaches no allocation request and no overflow-checked arithmetic, "
             "interprocedurally), R-STRAT (first/last/receiver-wins table; both Extend strategies write the same part of a present entry; append "
             "swaps only if other is strictly longer and always drains other), R-RESTORE BULK instances (heap_build after every bulk path), "
-            "R-GROW for from/from_iter/extend/append.", "trusted": [TRUST_RUSTC], "assumptions": []},
+            "R-GROW for from/from_iter/extend/append, R-CONSUME (every path of extend/from_iter/from reads the whole source: no early return "
+            "on a size hint or a length, loops over next() end only on None).", "trusted": [TRUST_RUSTC], "assumptions": []},
     "C08": {"rules": [c08], "explanation":
             "R-RESTORE for retain/retain_mut/pop_*_if/IterMut-Drop, R-ONCE (user predicate invoked exactly once per element/call, only through "
             "the Store primitive), R-IFF (swap_remove_if removes iff the predicate accepted; the refused path writes nothing), R-GROW retain "
@@ -306,7 +327,9 @@ PROPS = {
     "C13": {"rules": [c13], "explanation":
             "R-ESI for every `impl ExactSizeIterator`: size_hint defined (e1), size_hint and len agree (e2), every overridden "
             "Iterator/DoubleEndedIterator method of a delegating wrapper forwards to the same-named method of the same inner field (e3), "
-            "self-made iterators override only next/next_back/size_hint/len, fusedness (e4); wiring of every Iterator impl of the crate.",
+            "self-made iterators override only next/next_back/size_hint/len, fusedness (e4); wiring of every Iterator impl of the crate; "
+            "R-SELFMADE (a hand-written cursor iterator with an exact length moves its own cursor once on every yielding path under the guard "
+            "front < back and moves nothing on a path that yields nothing; none on the reviewed tree, positive fixture).",
             "trusted": [TRUST_RUSTC, "indexmap iterators are exact, fused and double-ended-consistent"], "assumptions": []},
     "C14": {"rules": [c14], "explanation":
             "R-EQFOOT: Store::eq is exactly IndexMap's equality of the two `map` fields (footprint {map}), both queue eq impls delegate to it and "
